@@ -563,6 +563,18 @@ fail_cb(void * cookie)
 	return (0);
 }
 
+/* Failure callback of the bystander writer (its transport never fails). */
+static int by_fail_ncb;
+
+static int
+by_fail_cb(void * cookie)
+{
+
+	(void)cookie;
+	by_fail_ncb++;
+	return (0);
+}
+
 static size_t
 draw_wlen(void)
 {
@@ -583,7 +595,21 @@ scenario_writer(uint64_t key)
 	uint64_t written = 0;	/* bytes the application has handed over */
 	static const int errs[] = { EPIPE, ECONNRESET, EIO };
 	int dummy;
+	/*
+	 * Bystander: a second writer on its own healthy descriptor, alive for
+	 * the whole scenario.  Its reservations overlap those of the writer
+	 * under test (reserve W, reserve BW, consume W, consume BW - the
+	 * interface allows it: a reservation belongs to its writer).  Both
+	 * peers must receive exactly their own stream.
+	 */
+	int bfd = simk_newfd();
+	struct simk_fd * bf;
+	struct netbuf_write * BW;
+	uint64_t bkey = key ^ 0xB5B5B5B5ULL, bwritten = 0;
 
+	simk_set_out(bfd, bkey, 1, 0);
+	bf = simk_get(bfd);
+	by_fail_ncb = 0;
 	simk_set_out(fd, key, 1, 0);
 	f = simk_get(fd);
 	if (vh_chance(&R, 1, 3)) {
@@ -612,10 +638,20 @@ scenario_writer(uint64_t key)
 	if ((W = writer_init(fd, fail_cb, NULL)) == NULL) {
 		viol("writer:init-failed", "netbuf_write_init returned NULL");
 		simk_closefd(fd);
+		simk_closefd(bfd);
+		return;
+	}
+	if ((BW = writer_init(bfd, by_fail_cb, NULL)) == NULL) {
+		viol("writer:init-failed", "netbuf_write_init returned NULL (second writer)");
+		netbuf_write_free(W);
+		simk_closefd(fd);
+		simk_closefd(bfd);
 		return;
 	}
 	for (op = 0; op < nops; op++) {
 		size_t len = draw_wlen(), j, i;
+		size_t blen = 0;
+		uint8_t * bp = NULL;
 		int failed_before = fail_ncb;
 		uint64_t sends0 = f->nsend;
 
@@ -631,6 +667,16 @@ scenario_writer(uint64_t key)
 				break;
 			}
 			j = vh_chance(&R, 1, 3) ? (size_t)vh_below(&R, len + 1) : len;
+			if (vh_chance(&R, 1, 2)) {
+				/* the second writer reserves while W's reservation is open */
+				blen = 1 + (size_t)vh_below(&R, 300);
+				if ((bp = netbuf_write_reserve(BW, blen)) == NULL) {
+					viol("writer:reserve-failed", "netbuf_write_reserve(%zu) returned NULL (second writer)", blen);
+					break;
+				}
+				for (i = 0; i < blen; i++)
+					bp[i] = vh_streambyte(bkey, bwritten + i);
+			}
 			for (i = 0; i < j; i++)
 				p[i] = vh_streambyte(key, written + i);
 			/* The rest of the reservation is the caller's to scribble on. */
@@ -643,6 +689,13 @@ scenario_writer(uint64_t key)
 			}
 			if (!failed_before)
 				written += j;
+			if (bp != NULL) {
+				if (netbuf_write_consume(BW, blen)) {
+					viol("writer:consume-failed", "netbuf_write_consume(%zu) failed (second writer)", blen);
+					break;
+				}
+				bwritten += blen;
+			}
 		} else {
 			uint8_t * b = malloc(len ? len : 1);
 
@@ -720,6 +773,26 @@ scenario_writer(uint64_t key)
 	}
 	if (f->nosignal_missing)
 		viol("writer:no-msg_nosignal", "send without MSG_NOSIGNAL");
+	/* The second writer: healthy transport, everything must have arrived. */
+	{
+		int rounds;
+
+		for (rounds = 0; rounds < 400 && !by_fail_ncb &&
+		    bf->out_total < bwritten; rounds++) {
+			dummy = 0;
+			run_until(&dummy, 50000);
+		}
+	}
+	if (bf->out_mismatch)
+		viol("writer:wrong-bytes", "second writer: %llu bytes accepted by its socket are not the prefix of its writes",
+		    (unsigned long long)bf->out_mismatch);
+	if (by_fail_ncb)
+		viol("writer:spurious-failure", "second writer: failure callback although its transport never failed");
+	else if (bf->out_total != bwritten)
+		viol("writer:lost-bytes", "second writer: %llu of %llu bytes sent (transport healthy, loop quiescent)",
+		    (unsigned long long)bf->out_total, (unsigned long long)bwritten);
+	netbuf_write_free(BW);
+	simk_closefd(bfd);
 	st_bytes_sent += f->out_total;
 	casesig = vh_fnv_u64(casesig, (uint64_t)(fail_ncb != 0) + 2 * (written > 4096));
 	netbuf_write_free(W);
